@@ -12,7 +12,7 @@ R6 the derived helpers pass (relationship, class) pairs of the containment schem
 import ast
 
 from ..core import AnalysisError, norm, loc, walk_no_nested, attr_chain, call_name
-from ..normalize import builders, canon, conjuncts, ctext, local_env, expand, branch_values, Unknown
+from ..normalize import inline, builders, canon, conjuncts, ctext, local_env, expand, branch_values, Unknown
 from ..core import func_params
 from .. import nxgraph as nxg
 from .. import flow
@@ -193,6 +193,13 @@ def run(prog, rep):
                         n.value.id in gset and n.targets[0].id not in gset:
                     gset.add(n.targets[0].id)
                     grew = True
+                # `g, a, z = copy, x, y` (what an inlined helper returning several values leaves behind): position by position
+                if isinstance(n, ast.Assign) and len(n.targets) == 1 and isinstance(n.targets[0], ast.Tuple) and isinstance(n.value, ast.Tuple) and \
+                        len(n.targets[0].elts) == len(n.value.elts):
+                    for t_, v_ in zip(n.targets[0].elts, n.value.elts):
+                        if isinstance(t_, ast.Name) and isinstance(v_, ast.Name) and v_.id in gset and t_.id not in gset:
+                            gset.add(t_.id)
+                            grew = True
         g = gvars[0]
         for c in walk_no_nested(fn):
             if isinstance(c, ast.Call) and call_name(c) in ('_drop_edges_not_of_type', '_filter_nodes_by_label', '_get_first_neighbors_via',
@@ -336,7 +343,7 @@ def run(prog, rep):
         if not ok:
             rep.violation('R5', loc(nxpg.module, fn2), 'NetworkXPropertyGraph.get_first_and_second_neighbor', f'{what} missing',
                           f'the two-hop query lost its {what}')
-    sp = nxpg.methods['get_nodes_on_shortest_path']
+    sp = nxg.method(prog, nxpg, nxpg.methods['get_nodes_on_shortest_path'])
     drop = [c for c in calls_named(sp, '_drop_edges_not_of_type') if has_name_arg(c, 'rel')]
     guarded = False
     for c in drop:
@@ -352,15 +359,32 @@ def run(prog, rep):
         finds = {}
         for n in walk_no_nested(sp):
             if isinstance(n, ast.Assign) and isinstance(n.value, ast.Call) and call_name(n.value) == '_find_node':
-                finds[n.targets[0].id] = ast.unparse(kwarg_value(n.value, 'node_id'))
+                if isinstance(n.targets[0], ast.Name):
+                    finds[n.targets[0].id] = ast.unparse(kwarg_value(n.value, 'node_id'))
+            if isinstance(n, ast.Assign) and len(n.targets) == 1 and isinstance(n.targets[0], ast.Tuple) and isinstance(n.value, ast.Tuple) and \
+                    len(n.targets[0].elts) == len(n.value.elts):
+                for t_, v_ in zip(n.targets[0].elts, n.value.elts):
+                    if isinstance(t_, ast.Name) and isinstance(v_, ast.Call) and call_name(v_) == '_find_node' and kwarg_value(v_, 'node_id') is not None:
+                        finds[t_.id] = ast.unparse(kwarg_value(v_, 'node_id'))
         ends_ok = len(ends) == 2 and finds.get(ends[0]) == 'node_a' and finds.get(ends[1]) == 'node_z'
     rep.instance('R5', f'get_nodes_on_shortest_path: restriction guarded={guarded} endpoints_ok={ends_ok}')
     if not drop or not guarded or not ends_ok:
         rep.violation('R5', loc(nxpg.module, sp), 'NetworkXPropertyGraph.get_nodes_on_shortest_path', 'relationship restriction / endpoints',
                       'the path must run between the two requested nodes over edges of the requested relationship only')
     dr = mixin.methods['_drop_edges_not_of_type']
+    bulk_ok = False
     cm = neq_against(dr, 'rel')
     rm = calls_named(dr, 'remove_edge')
+    if cm and not rm:
+        # decide first, delete in one go: remove_edges_from(<collection built from the edges under the test>)
+        bld_ = builders(dr)
+        for c_ in calls_named(dr, 'remove_edges_from'):
+            if c_.args and isinstance(c_.args[0], ast.Name):
+                for b_ in bld_.get(c_.args[0].id, []):
+                    if any(any(x is cm[0][0] for x in ast.walk(cd_)) for cd_ in b_.conds) and b_.gens and \
+                            any(isinstance(x, ast.Call) and call_name(x) == 'edges' for _, it_ in b_.gens for x in ast.walk(it_)):
+                        rm = [c_]
+                        bulk_ok = True
     rep.instance('R5', f'_drop_edges_not_of_type: test {norm(cm[0][0]) if cm else "?"} removes {norm(rm[0]) if rm else "?"}')
     ok = bool(cm) and bool(rm)
     if ok:
@@ -369,7 +393,7 @@ def run(prog, rep):
         ifn = cm[0][0]
         while ifn is not None and not isinstance(ifn, ast.If):
             ifn = getattr(ifn, '_parent', None)
-        ok = ifn is not None and any(x is rm[0] for x in ast.walk(ifn))
+        ok = (ifn is not None and any(x is rm[0] for x in ast.walk(ifn))) or bulk_ok
         if not ok:
             loops_ = []
             p_ = rm[0]
@@ -433,6 +457,54 @@ def run(prog, rep):
                                       f'a simple path (already loop-free) that contains all hops is discarded unless `{t_[:80]}` holds: the query '
                                       f'returns a longer path or nothing although a qualifying path exists (the persistent backend applies no '
                                       f'such test)')
+    if not okh and hparam:
+        # the same selection written as `return min(<generator of the qualifying candidates>, key=len, default=<empty>)`:
+        # min keeps the first of the shortest, which is what "replace only when strictly shorter" keeps
+        for r in walk_no_nested(wh):
+            v = r.value if isinstance(r, ast.Return) else None
+            if not (isinstance(v, ast.Call) and isinstance(v.func, ast.Name) and v.func.id == 'min' and len(v.args) == 1 and
+                    any(k.arg == 'key' and isinstance(k.value, ast.Name) and k.value.id == 'len' for k in v.keywords) and
+                    any(k.arg == 'default' and _is_empty_collection(k.value) for k in v.keywords)):
+                continue
+            src = v.args[0]
+            gen = None
+            if isinstance(src, ast.Call) and isinstance(src.func, ast.Name) and not src.args and not src.keywords:
+                gen = next((d for d in ast.walk(wh) if isinstance(d, ast.FunctionDef) and d is not wh and d.name == src.func.id), None)
+            if gen is None:
+                continue
+            for x in ast.walk(gen):
+                for ch in ast.iter_child_nodes(x):
+                    ch._parent = x
+            yields = [y for y in ast.walk(gen) if isinstance(y, ast.Yield) and y.value is not None]
+            def contain_test(t, cand):
+                return isinstance(t, ast.Call) and isinstance(t.func, ast.Name) and t.func.id == 'all' and t.args and \
+                    isinstance(t.args[0], ast.GeneratorExp) and isinstance(t.args[0].elt, ast.Compare) and isinstance(t.args[0].elt.ops[0], ast.In) and \
+                    ctext(t.args[0].elt.comparators[0]) == cand and ctext(t.args[0].generators[0].iter) == hparam[0]
+            good = bool(yields)
+            for y in yields:
+                cand = ctext(y.value)
+                p_ = y
+                guarded_ = False
+                while p_ is not None and p_ is not gen:
+                    child, p_ = p_, getattr(p_, '_parent', None)
+                    if isinstance(p_, ast.If) and contain_test(p_.test, cand) and any(child is b_ for b_ in p_.body):
+                        guarded_ = True
+                good = good and guarded_
+            if good:
+                okh = True
+                detail = ('min(..., key=len, default=empty) over a generator', [ctext(y.value) for y in yields])
+                # what else makes the generator skip a candidate
+                for i_ in [x for x in ast.walk(gen) if isinstance(x, ast.If)]:
+                    if any(isinstance(b_, ast.Continue) for b_ in i_.body):
+                        n = i_.test
+                        t_ = ctext(n)
+                        induced = any(isinstance(x, ast.Call) and call_name(x) in ('cycle_basis', 'find_cycle', 'simple_cycles', 'is_forest', 'is_tree') for x in ast.walk(n)) and \
+                            any(isinstance(x, ast.Call) and call_name(x) == 'subgraph' for x in ast.walk(n))
+                        construct = 'candidate path also rejected by an acyclicity test of the induced subgraph' if induced else f'candidate path also rejected unless `{t_[:80]}`'
+                        rep.violation('R5', loc(nxpg.module, i_), 'NetworkXPropertyGraph.get_nodes_on_path_with_hops', construct,
+                                      f'a simple path (already loop-free) that contains all hops is discarded when `{t_[:80]}` holds: the query '
+                                      f'returns a longer path or nothing although a qualifying path exists (the persistent backend applies no '
+                                      f'such test)')
     rep.instance('R5', f'get_nodes_on_path_with_hops: result replaced under {detail}; hop containment and shortest selection: {okh}')
     if not okh:
         rep.violation('R5', loc(nxpg.module, wh), 'NetworkXPropertyGraph.get_nodes_on_path_with_hops', 'hop containment / shortest selection',
@@ -468,6 +540,7 @@ def run(prog, rep):
         fn = apg.methods.get(name)
         if fn is None:
             raise AnalysisError(f'ABCPropertyGraph.{name} vanished')
+        fn = inline(prog, apg, fn)   # the query may sit in a private helper that receives the pair as arguments
         for c in walk_no_nested(fn):
             if isinstance(c, ast.Call) and call_name(c) in ('get_first_neighbor', 'get_first_and_second_neighbor'):
                 pairs = schema.pairs_of_call(c, apg)
